@@ -466,6 +466,20 @@ loop:
 		case <-rpc.Context().Done():
 			// The region client drops RPCs whose own context is done without
 			// sending a result, don't wait for one.
+			// But select picks among ready cases at random: a result that
+			// is already there wins over the context that ended meanwhile.
+			select {
+			case res := <-rpc.ResultChan():
+				results[rpcToRes[rpc]] = res
+				if res.Error != nil {
+					c.handleResultError(res.Error, rpc.Region(), rc)
+					ok = false
+					// its context is over: not retried
+					unretryableError = true
+				}
+				continue
+			default:
+			}
 			results[rpcToRes[rpc]].Error = rpc.Context().Err()
 			ok = false
 			// not retried: remember it, so that later successful rounds of
